@@ -5,7 +5,8 @@ import SJ.Model.ValueEq
 namespace SJ.Proofs.ValueEq
 open SJ SJ.Proofs.MapOrder SJ.Model.ValueEq
 open SJ.Spec.AMap (ltB Asc lookup AMap DictRel)
-open SJ.Spec.ValueEq (AVal abs absList absMembers memberFn normNum isZeroBits isNaNBits WF WFList WFMembers)
+open SJ.Spec.ValueEq (AVal abs absList absMembers memberFn normNum isZeroBits isNaNBits WF WFList WFMembers
+  ascAll ascAllList ascAllMembers)
 open SJ.Proofs.MapBTree (absm Sorted)
 open SJ.Proofs.MapIndex (NodupKeys)
 
@@ -400,6 +401,136 @@ theorem hashMembers_abs (po : Bool) : ∀ (m : List (Bytes × JV)), WFMembers po
     rcases List.mem_cons.mp hm with e | hm
     · cases e; exact hash_abs po v' w h.1 hw he
     · exact hashMembers_abs po r h.2 k v hm w hw he
+end
+
+/-! ## `sort_all_objects` -/
+
+theorem keys_sortAllMembers (m : List (Bytes × JV)) : keys (sortAllMembers m) = keys m := by
+  induction m with
+  | nil => rfl
+  | cons kv r ih => obtain ⟨k, v⟩ := kv; simp only [sortAllMembers, keys, List.map_cons] at ih ⊢; rw [ih]
+
+theorem lookup_sortAllMembers (k : Bytes) (m : List (Bytes × JV)) :
+    lookup k (sortAllMembers m) = (lookup k m).map sortAllPO := by
+  induction m with
+  | nil => rfl
+  | cons kv r ih =>
+    obtain ⟨k', v⟩ := kv
+    simp only [sortAllMembers, lookup]
+    split
+    · rfl
+    · exact ih
+
+theorem mem_sortAllMembers {k : Bytes} {x : JV} {m : List (Bytes × JV)} (h : (k, x) ∈ sortAllMembers m) :
+    ∃ v, (k, v) ∈ m ∧ x = sortAllPO v := by
+  induction m with
+  | nil => cases h
+  | cons kv r ih =>
+    obtain ⟨k', v⟩ := kv
+    simp only [sortAllMembers, List.mem_cons] at h
+    rcases h with e | h
+    · cases e; exact ⟨v, List.mem_cons_self .., rfl⟩
+    · obtain ⟨v', hm, e⟩ := ih h; exact ⟨v', List.mem_cons_of_mem _ hm, e⟩
+
+theorem ascAllMembers_iff (m : List (Bytes × JV)) :
+    ascAllMembers m = true ↔ ∀ k v, (k, v) ∈ m → ascAll v = true := by
+  induction m with
+  | nil => simp [ascAllMembers]
+  | cons kv r ih =>
+    obtain ⟨k', v'⟩ := kv
+    simp only [ascAllMembers, Bool.and_eq_true, ih, List.mem_cons]
+    constructor
+    · rintro ⟨h₁, h₂⟩ k v (e | hm)
+      · cases e; exact h₁
+      · exact h₂ k v hm
+    · intro h; exact ⟨h k' v' (Or.inl rfl), fun k v hm => h k v (Or.inr hm)⟩
+
+theorem wfMembers_iff (po : Bool) (m : List (Bytes × JV)) :
+    WFMembers po m ↔ ∀ k v, (k, v) ∈ m → WF po v := by
+  induction m with
+  | nil => simp [WFMembers]
+  | cons kv r ih =>
+    obtain ⟨k', v'⟩ := kv
+    simp only [WFMembers, ih, List.mem_cons]
+    constructor
+    · rintro ⟨h₁, h₂⟩ k v (e | hm)
+      · cases e; exact h₁
+      · exact h₂ k v hm
+    · intro h; exact ⟨h k' v' (Or.inl rfl), fun k v hm => h k v (Or.inr hm)⟩
+
+/-- what `sort_all_objects` achieves on one value -/
+def SortOk (v : JV) : Prop := abs (sortAllPO v) = abs v ∧ ascAll (sortAllPO v) = true ∧ WF true (sortAllPO v)
+
+theorem sortOk_obj {m : List (Bytes × JV)} (nd : (keys m).Nodup)
+    (ih : ∀ k v, (k, v) ∈ m → SortOk v) : SortOk (.obj m) := by
+  have hg : Gen.mapSortKeysSorts = true := rfl      -- extracted from `Map::sort_keys`
+  have hs : sortAllPO (.obj m) = .obj (Model.MapIndex.sortEntries (sortAllMembers m)) := by
+    simp only [sortAllPO, Model.MapIndex.sortKeys, hg, if_true]
+  have ndX : NodupKeys (sortAllMembers m) := by unfold NodupKeys; rw [keys_sortAllMembers]; exact nd
+  have hperm := MapIndex.sortEntries_perm (sortAllMembers m)
+  have hmem : ∀ k x, (k, x) ∈ Model.MapIndex.sortEntries (sortAllMembers m) → ∃ v, (k, v) ∈ m ∧ x = sortAllPO v :=
+    fun k x h => mem_sortAllMembers (hperm.mem_iff.mp h)
+  rw [SortOk, hs]
+  refine ⟨?_, ?_, ?_⟩
+  · simp only [abs, AVal.obj.injEq]
+    funext k
+    simp only [memberFn_apply]
+    have e := congrFun (MapIndex.sortEntries_abs ndX) k
+    simp only [absm] at e
+    rw [e, lookup_sortAllMembers]
+    cases h : lookup k m with
+    | none => rfl
+    | some v => exact (ih k v ((lookup_eq_some_iff nd).mp h)).1
+  · simp only [ascAll, Bool.and_eq_true]
+    refine ⟨?_, ?_⟩
+    · rw [ascB_iff]
+      have := MapIndex.sortEntries_keys (sortAllMembers m)
+      simp only [keys] at this
+      rw [this]
+      exact MapIndex.sortKeys_asc ndX
+    · rw [ascAllMembers_iff]
+      intro k x h
+      obtain ⟨v, hm, rfl⟩ := hmem k x h
+      exact (ih k v hm).2.1
+  · simp only [WF, if_true]
+    refine ⟨MapIndex.sortEntries_nodup ndX, ?_⟩
+    rw [wfMembers_iff]
+    intro k x h
+    obtain ⟨v, hm, rfl⟩ := hmem k x h
+    exact (ih k v hm).2.2
+
+mutual
+theorem sortOk (v : JV) (h : WF true v) : SortOk v :=
+  match v, h with
+  | .null, _ => ⟨rfl, rfl, trivial⟩
+  | .bool _, _ => ⟨rfl, rfl, trivial⟩
+  | .str _, _ => ⟨rfl, rfl, trivial⟩
+  | .num n, h => ⟨rfl, rfl, h⟩
+  | .arr xs, h => by
+    have := sortOkList xs (by simpa [WF] using h)
+    simp only [SortOk, sortAllPO, abs, ascAll, WF]
+    exact ⟨by rw [this.1], this.2.1, this.2.2⟩
+  | .obj m, h => by
+    have hm : WFMembers true m := by simp only [WF] at h; exact h.2
+    exact sortOk_obj (keys_nodup_of_wf h) (sortOkMembers m hm)
+theorem sortOkList (xs : List JV) (h : WFList true xs) :
+    absList (sortAllList xs) = absList xs ∧ ascAllList (sortAllList xs) = true ∧ WFList true (sortAllList xs) :=
+  match xs, h with
+  | [], _ => ⟨rfl, rfl, trivial⟩
+  | x :: xs, h => by
+    simp only [WFList] at h
+    have hx := sortOk x h.1
+    have hxs := sortOkList xs h.2
+    simp only [sortAllList, absList, ascAllList, WFList, Bool.and_eq_true]
+    exact ⟨by rw [hx.1, hxs.1], ⟨hx.2.1, hxs.2.1⟩, hx.2.2, hxs.2.2⟩
+theorem sortOkMembers (m : List (Bytes × JV)) (h : WFMembers true m) : ∀ k v, (k, v) ∈ m → SortOk v :=
+  match m, h with
+  | [], _ => fun _ _ hm => by cases hm
+  | (k', v') :: r, h => fun k v hm => by
+    simp only [WFMembers] at h
+    rcases List.mem_cons.mp hm with e | hm
+    · cases e; exact sortOk v' h.1
+    · exact sortOkMembers r h.2 k v hm
 end
 
 end SJ.Proofs.ValueEq
